@@ -34,9 +34,13 @@ int __lsan_do_recoverable_leak_check(void);
 int __sanitizer_install_malloc_and_free_hooks(void (*malloc_hook)(const volatile void *, size_t),
                                               void (*free_hook)(const volatile void *));
 
-void __sanitizer_print_stack_trace(void);
+size_t __sanitizer_get_allocated_size(const volatile void *p);
 /* ---- allocation accounting (exact, via the sanitizer's malloc/free hooks) ---- */
 static volatile long n_live_blocks;
+/* blocks of three particular sizes -- a TickitPen, a render buffer stack frame, the TickitString of
+ * the text that the R cases draw -- are counted separately; the sizes are measured in the warm-up */
+static size_t sz_last, sz_class[3];
+static volatile long n_live_class[3];
 /* with C08_TRACEALLOC set, remember what is outstanding, to say what a leak consists of */
 #define NTRACK 8192
 static struct { const volatile void *p; size_t sz; } track[NTRACK];
@@ -45,6 +49,8 @@ static void hook_malloc(const volatile void *p, size_t sz)
 {
   if(!p) return;
   n_live_blocks++;
+  sz_last = sz;
+  for(int i = 0; i < 3; i++) if(sz_class[i] && sz_class[i] == sz) n_live_class[i]++;
   if(tracking) for(int i = 0; i < NTRACK; i++) if(!track[i].p) { track[i].p = p; track[i].sz = sz; break; }
   if(tracking && getenv("C08_TRACESIZE") && (size_t)atol(getenv("C08_TRACESIZE")) == sz) {
     static int busy; if(!busy) { busy = 1; fprintf(stderr, "alloc of %zu bytes at:\n", sz); __sanitizer_print_stack_trace(); busy = 0; } }
@@ -53,6 +59,8 @@ static void hook_free(const volatile void *p)
 {
   if(!p) return;
   n_live_blocks--;
+  size_t sz = __sanitizer_get_allocated_size(p);
+  for(int i = 0; i < 3; i++) if(sz_class[i] && sz_class[i] == sz) n_live_class[i]--;
   if(tracking) for(int i = 0; i < NTRACK; i++) if(track[i].p == p) { track[i].p = NULL; break; }
 }
 static void report_outstanding(void)
@@ -83,7 +91,7 @@ static bool wdead[MAXW];
 static int  dlog[4 * MAXW], ndlog;
 static TickitTerm *wterm;
 
-struct hdata { int kind; unsigned mask; int ret; char *actions; int depth; };
+struct hdata { int kind; unsigned mask; int ret; char *actions; int depth; int cid; };
 static struct hdata *HD[256];
 static int nHD;
 
@@ -212,10 +220,18 @@ static void w_op(const char *op, int depth)
       h->mask = (unsigned)strtoul(s, (char **)&s, 16); if(*s == '.') s++;
       h->ret = p_int(&s);
       h->actions = strdup(s); h->depth = 0;
-      if(nHD < 256) HD[nHD++] = h;
-      if(h->kind == 'k') tickit_window_bind_event(W[i], TICKIT_WINDOW_ON_KEY, 0, &on_wkey, h);
-      else               tickit_window_bind_event(W[i], TICKIT_WINDOW_ON_MOUSE, 0, &on_wmouse, h);
+      if(nHD >= 256) { printf("ERR too-many-handlers\n"); fflush(stdout); _exit(0); }
+      HD[nHD++] = h;      /* handlers are numbered in the order they are bound */
+      if(h->kind == 'k') h->cid = tickit_window_bind_event(W[i], TICKIT_WINDOW_ON_KEY, 0, &on_wkey, h);
+      else               h->cid = tickit_window_bind_event(W[i], TICKIT_WINDOW_ON_MOUSE, 0, &on_wmouse, h);
       break; }
+    case 'U': { int i = p_int(&s), n = p_int(&s);   /* unbind handler number n (bound on window i) */
+      if(n < 0 || n >= nHD) { printf("ERR no-such-handler\n"); fflush(stdout); _exit(0); }
+      tickit_window_unbind_event_id(W[i], HD[n]->cid); break; }
+    case 'y': { int i = p_int(&s);                  /* a different size: GEOMCHANGE runs on the window itself */
+      TickitRect r = tickit_window_get_geometry(W[i]);
+      r.lines = r.lines == 4 ? 3 : 4;
+      tickit_window_set_geometry(W[i], r); break; }
     case '-': break;   /* no-op */
     default: printf("ERR op %s\n", op); fflush(stdout); _exit(0);
   }
@@ -345,9 +361,13 @@ static void classify(int status, const char *err, char *out, size_t outlen)
   snprintf(out, outlen, "%s %d tr=%s # %s", kind, sh->step, sh->trlen ? (char *)sh->trace : "-", detail);
 }
 
+#define R_LINES 3
+#define R_COLS 8
+#define R_TEXT "abcdefgh"   /* R_COLS columns: a text or erase call of an R case covers a whole line */
 static void warm_output(TickitTerm *tt, const char *bytes, size_t len, void *user) { }
 static void run_T(void);
 static void run_O(void);
+static void run_R(void);
 
 static void child_main(void)
 {
@@ -358,6 +378,7 @@ static void child_main(void)
     case 'W': run_W(); break;
     case 'T': run_T(); break;
     case 'O': run_O(); break;
+    case 'R': run_R(); break;
     default: printf("ERR kind\n");
   }
 }
@@ -389,6 +410,15 @@ int main(void)
       tickit_tick(k, TICKIT_RUN_NOHANG);
       tickit_unref(k);
     }
+  }
+  /* the block sizes that the R cases count */
+  {
+    TickitPen *pen = tickit_pen_new(); sz_class[0] = sz_last; tickit_pen_unref(pen);
+    TickitRenderBuffer *rb = tickit_renderbuffer_new(1, 1);
+    tickit_renderbuffer_save(rb); sz_class[1] = sz_last;
+    tickit_renderbuffer_unref(rb);
+    TickitString *str = tickit_string_new(R_TEXT, strlen(R_TEXT)); sz_class[2] = sz_last; tickit_string_unref(str);
+    n_live_class[0] = n_live_class[1] = n_live_class[2] = 0;
   }
   /* make the sanitizer load its symbol tables once, here, so that the forked children inherit them */
   {
